@@ -460,6 +460,99 @@ fn fifo_segmentation<T: Ty>(rng: &mut Rng, rep: &mut Report) {
     }
 }
 
+/// A FIFO whose writer opens late and pauses between writes: the source has to
+/// wait for data (its read blocks) instead of treating "nothing there right
+/// now" as end of file or as an error.
+fn fifo_paced_writer<T: Ty>(rng: &mut Rng, rep: &mut Report) {
+    use rustradio::block::Block;
+    let n = rng.range(1, 400);
+    let data: Vec<T> = (0..n).map(|_| T::from_bits(rng)).collect();
+    let bytes = serialize_all(&data);
+    let splits = gen_splits(rng, bytes.len(), T::size());
+    let replay = json!({"part": "fifo-paced-writer", "type": T::NAME, "n": n, "splits_head": splits.iter().take(12).collect::<Vec<_>>()});
+    rep.count("fifo_paced_writer_runs", 1);
+    let dir = tempfile::tempdir().expect("tempdir");
+    let path = dir.path().join("fifo");
+    if !mkfifo(&path) {
+        rep.inconclusive("mkfifo failed");
+        return;
+    }
+    let wpath = path.clone();
+    let wbytes = bytes.clone();
+    let wsplits = splits.clone();
+    let writer = std::thread::spawn(move || {
+        std::thread::sleep(std::time::Duration::from_millis(30));
+        // Open without blocking (ENXIO while nobody reads) and retry for 2 s: a reader
+        // that has already given up must not leave this thread stuck in open().
+        use std::os::unix::fs::OpenOptionsExt;
+        use std::os::fd::AsRawFd;
+        let t0 = std::time::Instant::now();
+        let mut f = loop {
+            match std::fs::OpenOptions::new().write(true).custom_flags(libc::O_NONBLOCK).open(&wpath) {
+                Ok(f) => break f,
+                Err(_) if t0.elapsed() < std::time::Duration::from_secs(2) => std::thread::sleep(std::time::Duration::from_millis(2)),
+                Err(_) => return,
+            }
+        };
+        // blocking writes from here on
+        unsafe {
+            let fl = libc::fcntl(f.as_raw_fd(), libc::F_GETFL);
+            libc::fcntl(f.as_raw_fd(), libc::F_SETFL, fl & !libc::O_NONBLOCK);
+        }
+        let mut pos = 0;
+        for (i, k) in wsplits.iter().enumerate() {
+            if i % 3 == 0 {
+                std::thread::sleep(std::time::Duration::from_millis(2));
+            }
+            if f.write_all(&wbytes[pos..pos + k]).is_err() {
+                return; // the reader went away (reported by the reader's side)
+            }
+            pos += k;
+        }
+        // dropping `f` closes the FIFO: end of file for the reader
+    });
+    rec::stream_size(8 * rec::PAGE);
+    let built = FileSource::<T>::new(&path); // blocks until the writer has opened
+    rec::stream_size(0);
+    let mut got: Vec<T> = Vec::new();
+    let mut outcome: Result<(), String> = Ok(());
+    match built {
+        Err(e) => outcome = Err(format!("FileSource::new on the fifo: {e}")),
+        Ok((mut src, o)) => {
+            for _ in 0..200_000 {
+                match catch(|| src.work().map(|r| matches!(r, rustradio::block::BlockRet::EOF))) {
+                    Ok(Ok(eof)) => {
+                        let (rb, _) = o.read_buf().unwrap();
+                        got.extend_from_slice(rb.slice());
+                        let l = rb.len();
+                        rb.consume(l);
+                        if eof {
+                            break;
+                        }
+                    }
+                    Ok(Err(e)) => {
+                        outcome = Err(format!("work() returned an error while the writer was pausing: {e}"));
+                        break;
+                    }
+                    Err(p) => {
+                        outcome = Err(format!("work() panicked: {p}"));
+                        break;
+                    }
+                }
+            }
+        }
+    }
+    let _ = writer.join();
+    match outcome {
+        Err(e) => rep.violation(format!("C14|FileSource<{}>|fifo-paced-writer|error", T::NAME), e, replay),
+        Ok(()) => {
+            if got.len() != data.len() || got.iter().zip(&data).any(|(a, b)| !T::bits_eq(a, b)) {
+                rep.violation(format!("C14|FileSource<{}>|fifo-paced-writer|content", T::NAME), format!("{} samples out, {} written by a writer that opened 30 ms late and paused between writes", got.len(), data.len()), replay);
+            }
+        }
+    }
+}
+
 fn tcp_segmentation<T: Ty>(rng: &mut Rng, rep: &mut Report) {
     use rustradio::block::Block;
     let full_output = rng.chance(1, 4);
@@ -609,7 +702,7 @@ fn tcp_segmentation<T: Ty>(rng: &mut Rng, rep: &mut Report) {
 
 pub fn main(opts: &Opts) -> Report {
     let mut rep = Report::new("C14");
-    rep.rule = "Sample::serialize/parse/size on boundary and random bit patterns (incl. NaN payloads) for u8,u32,i32,f32,Complex; FileSink->file->FileSource on temp files under drip-feed schedules (0..3 capacities, 1-2 page streams); SigMF recordings and tar archives (members in 6 orders, unrelated members) for u8,f32,Complex; AuEncode->AuDecode = PCM16 quantisation with exact count; FileSource on a FIFO and TcpSource on a loop-back socket with the harness choosing the size of every read() result (1 byte, sample-1, sample+1, 1..3, 1..64; splits inside samples); distinct = (part, type, length, split style)".into();
+    rep.rule = "Sample::serialize/parse/size on boundary and random bit patterns (incl. NaN payloads) for u8,u32,i32,f32,Complex; FileSink->file->FileSource on temp files under drip-feed schedules (0..3 capacities, 1-2 page streams); SigMF recordings and tar archives (members in 6 orders, unrelated members) for u8,f32,Complex; AuEncode->AuDecode = PCM16 quantisation with exact count; FileSource on a FIFO (also with a writer that opens late and pauses between writes) and TcpSource on a loop-back socket with the harness choosing the size of every read() result (1 byte, sample-1, sample+1, 1..3, 1..64; splits inside samples); distinct = (part, type, length, split style)".into();
     rep.assume("FIFO/TCP segmentation is deterministic because the harness writes k bytes and then calls work() exactly once");
     rec::install(true);
     let mut rng = Rng::new(opts.shard_seed() ^ 0xC14);
@@ -641,6 +734,11 @@ pub fn main(opts: &Opts) -> Report {
         rep.distinct(h);
         if rep.want_sample() {
             rep.sample(json!({"round_seed": h.to_string(), "parts": ["file u8/f32/Complex", "sigmf u8/f32/Complex", "au", "fifo", "tcp"]}));
+        }
+        if k % 8 == 0 {
+            fifo_paced_writer::<f32>(&mut r, &mut rep);
+        } else if k % 8 == 4 {
+            fifo_paced_writer::<Complex>(&mut r, &mut rep);
         }
         match k % 3 {
             0 => {
